@@ -109,6 +109,15 @@ def absorb(res: core.Result, part: str, run_ref: str, out: Dict[str, Any], confi
     st: explorer.Stats = out["stats"]
     for e in out["errors"]:
         res.harness_errors.append(f"[{part}] {e[:600]}")
+    for od in out.get("order_dependent") or []:
+        cfg = configs[od["cfg_index"]]
+        res.add_violation(
+            {"class": "behaviour-depends-on-earlier-calls-in-the-process"},
+            f"[{part}] the same execution gives {od['alone']['obs'].get('outcome')!r} when it runs alone in a fresh process (twice) "
+            f"but a different observation inside a long-lived process that ran other executions before: the library carries state "
+            f"between calls; cfg={cfg} choices={od['choices']}",
+            {"ref": "vf.sched:replay", "args": {"run_ref": run_ref, "init_ref": init_ref, "cfg": jsonable(cfg), "choices": od["choices"]}},
+        )
     if out["replay_mismatches"] and not real_world:
         res.harness_errors.append(
             f"[{part}] nondeterminism: {out['replay_mismatches']} of {out['replayed']} audited executions "
